@@ -1933,6 +1933,9 @@ def concatenate_periodic(pulse: PulseSequence, repeats: int) -> PulseSequence:
 
     # Initialize a new PulseSequence instance with the Hamiltonians sequenced
     # (this is much easier than in the general case, thus do it on the fly)
+    if repeats < 1:
+        raise ValueError(f'Expected repeats to be a positive integer, not {repeats}')
+
     dt = np.tile(pulse.dt, repeats)
     newpulse = PulseSequence(
         c_opers=pulse.c_opers,
